@@ -168,8 +168,11 @@ EmitNumber == (Mode = "number") =>
   \A s \in SeqsOver(NumSyms, MaxLen) :
      LET r == ParseNumber(s, 1) IN
      PrintT(<<"JNUM", ToJson([s |-> s, valid |-> (Len(s) > 0 /\ r.ok /\ r.next = Len(s) + 1), float |-> (\E j \in 1..Len(s) : s[j] \in {".", "e"})])>>)
-EmitString == (Mode = "string") =>
-  \A f \in {i \in 1..NTok : PartOf(i)} : \A rest \in SeqsOver(1..NTok, MaxLen - 1) :
+\* "surrogates": longer sequences over the tokens that interact (surrogate halves, a \u escape, a plain and a 4-byte character, ill-formed bytes)
+StrAlphabet == IF Mode = "surrogates" THEN {i \in 1..NTok : Tok[i][1] \in {"a", "smile", "\\u0041", "\\ud83d", "\\ude00", "\\uDBFF", "\\uDFFF", "xff", "\\n"}}
+               ELSE 1..NTok
+EmitString == (Mode \in {"string", "surrogates"}) =>
+  \A f \in {i \in StrAlphabet : PartOf(i)} : \A rest \in SeqsOver(StrAlphabet, MaxLen - 1) :
      LET ts == <<f>> \o rest IN
      PrintT(<<"JSTR", ToJson([t |-> [i \in 1..Len(ts) |-> Tok[ts[i]][1]], valid |-> BodyValid(ts),
                                cps |-> IF BodyValid(ts) THEN DecodeBody(ts, 1) ELSE <<>>])>>)
